@@ -334,10 +334,10 @@ class _Eval:
         body.block(st.body)
         for n in assigned:
             if n in body.env and not (body.env[n][0] == "loopin" and body.env[n][2] == lid and body.env[n][1] == n):
-                self.env[n] = I(("loopout", lid, n, init.get(n) or ("unknown", "unbound"), body.env[n]))
+                self.env[n] = I(("loopout", lid, n, init.get(n) or ("unknown", "unbound"), body.env[n], iter_term))
         for n in assigned_attrs:
             if body.attrs.get(n) is not None:
-                self.attrs[n] = I(("loopout", lid, "self." + n, init_attrs[n], body.attrs[n]))
+                self.attrs[n] = I(("loopout", lid, "self." + n, init_attrs[n], body.attrs[n], iter_term))
         if st.orelse:
             self.block(st.orelse)
 
@@ -824,7 +824,7 @@ def children(t):
     if k == "loopin":
         return (t[3],) if t[3] is not None else ()
     if k == "loopout":
-        return (t[3], t[4])
+        return (t[3], t[4]) + ((t[5],) if len(t) > 5 else ())
     if k == "comp":
         return (t[2],) + tuple(g[1] for g in t[3]) + tuple(c for g in t[3] for c in g[2])
     if k == "loop":
